@@ -167,14 +167,14 @@ pub const ASCII_CHARS: &[char] = &['a', 'b', 'c', 'x', '0', '1', '-', '_', '.', 
 pub const STR_CLASSES: &[&str] = &[
     "[a-c]", "[ac]", "[a-ce-g]", "[a-cx-z0]", "[^a]", "[^a-c]", "\\d", "\\w", "\\s", "\\p{Greek}", ".", "(?s:.)", "[0-9]",
     "[a-z]", "[a-zA-Z_]", "[é-λ]", "[^\\n]", "[\\x00-ac-z]", "[ab]", "[b-x]", "[^ab]", "[a-c0-1]", "[\\x00-\\x7f]", "[^\\x00-\\x7f]",
-    "[a-b]", "[x0]", "[\\x00-\\x7f&&[^a]]", "[[:ascii:]&&[^ab]]",
+    "[a-b]", "[x0]", "[\\x00-\\x7f&&[^a]]", "[[:ascii:]&&[^ab]]", "[0P]", "[ @]", "[?_]", "[kK]", "[08]", "[0p]", "[AQ]",
 ];
 pub const ASCII_CLASSES: &[&str] =
-    &["[a-c]", "[ac]", "[a-ce-g]", "[a-cx-z0]", "[0-9]", "[a-z]", "[ab]", "[b-x]", "[a-c0-1]", "[a-b]", "[x0]", "[a-zA-Z_]", "[ \\n]"];
+    &["[a-c]", "[ac]", "[a-ce-g]", "[a-cx-z0]", "[0-9]", "[a-z]", "[ab]", "[b-x]", "[a-c0-1]", "[a-b]", "[x0]", "[a-zA-Z_]", "[ \\n]", "[0P]", "[ @]", "[?_]", "[kK]", "[08]", "[0p]", "[AQ]"];
 /// byte-mode only (can match invalid UTF-8)
 pub const BYTE_CLASSES: &[&str] = &[
     "(?-u:[\\x80-\\xff])", "(?-u:[^a])", "(?-u:.)", "(?s-u:.)", "(?-u:[^ac])", "(?-u:[\\x00-ac-z])", "(?-u:[^\\x00])", "(?-u:[^\\xff])",
-    "(?-u:[\\x00-\\x7f])", "(?-u:[\\xC3\\xA9])", "(?-u:[^a-c])", "(?-u:\\xFF)", "(?-u:\\x80)", "(?-u:\\xC3)",
+    "(?-u:[\\x00-\\x7f])", "(?-u:[\\xC3\\xA9])", "(?-u:[^a-c])", "(?-u:\\xFF)", "(?-u:\\x80)", "(?-u:\\xC3)", "(?-u:[\\x60\\x80])", "(?-u:[\\xA0\\xC0])", "(?-u:[\\x7f\\xff])",
 ];
 pub const LOOKS: &[&str] = &["$", "\\z", "(?m:$)", "(?-u:\\b)", "(?-u:\\B)"];
 pub const GROUPS: &[&str] = &["(", "(?:", "(?i:", "(?s:", "(?m:", "(?x:", "(?U:", "(?-u:"];
